@@ -149,9 +149,10 @@ def frameBytes (proto profile : Nat) (records : Bytes) : Bytes :=
   body ++ [Crc.lo fc, Crc.hi fc]
 
 /-- Run a whole record area through the item machine, the way `decode` sequences it:
-    file_id definition and data record first, then `init`, then the remaining records. -/
-def runItems (P : Profile) (hdr : Header) (g : Globals) (its : List Item) : StepRes :=
-  let st0 : DecSt := { DecSt.init g with hdr := hdr, file := some { hdr := hdr, fileId := zeroFileId P }, unkInit := true }
+    file_id definition and data record first, then `init`, then the remaining records.
+    `crc0` is the checksum register the header phase leaves (0 after a header with its CRC). -/
+def runItems (P : Profile) (hdr : Header) (g : Globals) (its : List Item) (crc0 : BitVec 16 := 0#16) : StepRes :=
+  let st0 : DecSt := { DecSt.init g with hdr := hdr, crc := crc0, file := some { hdr := hdr, fileId := zeroFileId P }, unkInit := true }
   match its with
   | d :: r :: rest =>
     match stepItem P st0 d with
